@@ -322,10 +322,13 @@ def copies_keep_shared_cells_shared(ctx):
             if isinstance(st, ast.Assign) and isinstance(st.targets[0], ast.Name) and st.targets[0].id == gvar and isinstance(st.value, ast.Call) \
                     and callee_text(st.value) in ('dill.copy', 'copy.deepcopy') and st.value.args and 'in %s' % gvar in unparse(st.value.args[0]):
                 together = True
-    notlive = any(isinstance(st, ast.Assign) and ''.join(unparse(st.targets[0]).split()) == 'result._live' and const_value(st.value, 1) is False
-                  for st in stmts_of(f.node))
-    good = (together and group is not None and captured <= group) or notlive
-    ctx.check(good, 'AbstractSolver.__deepcopy__#shared', 'the decorated cost is copied together with %s (or the copy is marked not-live)' % sorted(captured),
+    # NOTE: marking the copy not-live instead is NOT accepted: re-decorating a solver that has already run is not
+    # neutral (Nelder-Mead rebuilds its simplex, DE re-clips members with random draws under strict ranges)
+    good = together and group is not None and captured <= group
+    relive = [st for st in stmts_of(f.node) if isinstance(st, ast.Assign) and ''.join(unparse(st.targets[0]).split()).endswith('._live')]
+    ctx.check(not relive, 'AbstractSolver.__deepcopy__#live', 'the copy keeps the live flag of the original',
+              'the copy protocol rewrites _live: the copy then re-decorates its objective, which rebuilds/re-clips a running solver\'s members', f, relive[0] if relive else f.node)
+    ctx.check(good, 'AbstractSolver.__deepcopy__#shared', 'the decorated cost is copied together with %s' % sorted(captured),
               'the decorated cost is copied apart from the objects it closes over %s: the copy counts and logs through private duplicates'
               % sorted(captured - (group or set())), f, f.node)
     loops = [n for n in f.node.body if isinstance(n, ast.For) and '__dict__' in unparse(n.iter)]
@@ -343,7 +346,7 @@ def copies_keep_shared_cells_shared(ctx):
               'a path of the copy loop sets no attribute: %s' % (missing.describe(5) if missing else ''), f, loops[0])
 
 
-@rule('C06.f', min_instances=2)
+@rule('C06.f', min_instances=3)
 def restart_file_registered(ctx):
     """SaveSolver records the file name in _state before dumping; LoadSolver records it after loading"""
     f = ctx.func(AS + '.SaveSolver')
@@ -353,6 +356,20 @@ def restart_file_registered(ctx):
     ctx.check(bool(sets) and bool(dumps) and sets[0].lineno < dumps[0].lineno, 'AbstractSolver.SaveSolver#_state', 'self._state = filename before the dump',
               'the restart file name is not registered in the solver before it is pickled', f, sets[0] if sets else f.node)
     h = ctx.func('mystic.solvers:LoadSolver')
+    # nothing but the file registration is written on the restored solver after the state transplant
+    loads_ = [s for s in h.node.body if isinstance(s, ast.Expr) and '__load_state' in unparse(s)]
+    if loads_:
+        late = []
+        for st in h.node.body:
+            if st.lineno <= loads_[0].lineno:
+                continue
+            for n_ in ast.walk(st):
+                if isinstance(n_, ast.Attribute) and isinstance(n_.ctx, (ast.Store, ast.Del)) and n_.attr != '_state':
+                    late.append(st)
+                if isinstance(n_, ast.Call) and isinstance(n_.func, ast.Attribute) and n_.func.attr.startswith(('Set', '_Set', 'Finalize', '_update')):
+                    late.append(st)
+        ctx.check(not late, 'LoadSolver#no-late-writes', 'after the transplant only _state is registered (and the load is logged)',
+                  'LoadSolver modifies the restored solver after transplanting its state: %s' % (norm_stmt(late[0]) if late else ''), h, late[0] if late else h.node)
     sets = [s for s in h.node.body if isinstance(s, ast.Assign) and ''.join(unparse(s.targets[0]).split()) == 'self._state' and unparse(s.value) == 'filename']
     loads = [s for s in h.node.body if isinstance(s, ast.Expr) and '__load_state' in unparse(s)]
     ctx.check(bool(sets) and bool(loads) and sets[0].lineno > loads[0].lineno, 'LoadSolver#_state', 'self._state = filename after the state transplant',
